@@ -575,6 +575,7 @@ func (db *MultiBucketBackend) deleteObjectLocked(bucketName, objectName string) 
 	if err := db.bucketFs.Remove(filepath.FromSlash(fullPath)); err != nil && !os.IsNotExist(err) {
 		return err
 	}
+	removeEmptyDirs(db.bucketFs, bucketName, path.Dir(objectName))
 
 	if err := db.metaStore.deleteMeta(db.metaStore.metaPath(bucketName, objectName)); err != nil {
 		return err
